@@ -4,7 +4,7 @@ import sys
 
 from . import framework
 from .framework import RULES
-from . import rules_cache, rules_guard, rules_fs, rules_ef, rules_sd, rules_walk, rules_crc, rules_codec, rules_lfn  # noqa: F401  (registers rules)
+from . import rules_cache, rules_guard, rules_fs, rules_ef, rules_sd, rules_walk, rules_crc, rules_codec, rules_lfn, rules_iv  # noqa: F401  (registers rules)
 
 PROPS = {}
 
